@@ -97,7 +97,7 @@ class Ruleset {
 
  private:
   uint32_t runOnceImpl(OomdContext& context);
-  void registerRunnableRulesetForCgroupPath(
+  [[nodiscard]] bool registerRunnableRulesetForCgroupPath(
       OomdContext& context,
       const CgroupPath& cgroup_path);
 
